@@ -131,10 +131,14 @@ def analyse_function(relfile, qual, node, cls_name):
                 env[n.name] = 'Fresh'
         elif isinstance(n, ast.ExceptHandler) and n.name:
             assigns.setdefault(n.name, []).append(None)
-        elif isinstance(n, ast.comprehension):
-            for t in ast.walk(n.target):
-                if isinstance(t, ast.Name):
-                    assigns.setdefault(t.id, []).append(None)
+    # the target of a comprehension / generator expression is a variable of that comprehension only (Python 3 scoping): inside it the
+    # name holds items of the iterated container (Host); a function local that happens to have the same name is another variable
+    comp_bound = {}
+    for c in ast.walk(node):
+        if isinstance(c, (ast.ListComp, ast.SetComp, ast.DictComp, ast.GeneratorExp)):
+            names = set(t.id for g in c.generators for t in ast.walk(g.target) if isinstance(t, ast.Name))
+            for sub in ast.walk(c):
+                comp_bound.setdefault(id(sub), set()).update(names)
     for _ in range(3):
         for name, vals in assigns.items():
             if name in all_args:
@@ -153,8 +157,9 @@ def analyse_function(relfile, qual, node, cls_name):
                 env[name] = 'Host'
     may_write_self = node.name in SELF_WRITERS.get(cls_name or '', ())
 
-    def judge(target_expr, what, line):
-        o = owner_of(target_expr, env, is_action)
+    def judge(target_expr, what, line, at=None):
+        bound = comp_bound.get(id(at), ())
+        o = owner_of(target_expr, dict(env, **{b: 'Host' for b in bound}) if bound else env, is_action)
         if o in ('Fresh', 'Imm', 'Parse'):
             ok, note = True, o
         elif o in ('Self', 'SelfObj'):
@@ -167,12 +172,12 @@ def analyse_function(relfile, qual, node, cls_name):
     for n in ast.walk(node):
         if isinstance(n, ast.Call) and isinstance(n.func, ast.Attribute) and n.func.attr in MUTATORS:
             # str/regex methods named like mutators do not exist; deque.appendleft etc. on fresh deques are fine
-            judge(n.func.value, 'L%d.%s()' % (n.lineno - node.lineno, n.func.attr), n.lineno)
+            judge(n.func.value, 'L%d.%s()' % (n.lineno - node.lineno, n.func.attr), n.lineno, at=n)
         elif isinstance(n, (ast.Assign, ast.AugAssign, ast.Delete)):
             targets = n.targets if isinstance(n, (ast.Assign, ast.Delete)) else [n.target]
             for t in targets:
                 if isinstance(t, ast.Subscript):
-                    judge(t.value, 'L%d.store[]' % (n.lineno - node.lineno), n.lineno)
+                    judge(t.value, 'L%d.store[]' % (n.lineno - node.lineno), n.lineno, at=n)
                 elif isinstance(t, ast.Attribute) and t.attr in ('__traceback__', '__context__', '__cause__') and \
                         isinstance(n, ast.Assign) and isinstance(n.value, ast.Constant) and n.value.value is None:
                     # dropping retained interpreter state (never creates state)
